@@ -156,7 +156,7 @@ def rule_pos_conv(prog):
         if isinstance(v, tuple):
             _, idx, name = v
             if body["d"].startswith("features::semantic_tokens::") and idx < len(body["params"]) and \
-                    body["params"][idx].get("k") == "Binding" and c.tstr(body["params"][idx]["bt"]) == "lsp_types::Position":
+                    body["params"][idx].get("k") == "Binding" and c.tstr(body["params"][idx]["bt"]).replace("&mut ", "").replace("&", "").strip() == "lsp_types::Position":
                 n += 1
                 out.add(body["d"], label, True, loc, "delta base threaded from the previous as_position result (checked by SEMTOK-PAIRING)")
                 return
@@ -223,7 +223,7 @@ def rule_pos_conv(prog):
                     continue
                 v = from_conv(fld["base"], b, _defs(b), _params(b))
                 ok = v is True or (isinstance(v, tuple) and b["d"].startswith("features::semantic_tokens::")
-                                   and c.tstr(b["params"][v[1]]["bt"]) == "lsp_types::Position")
+                                   and c.tstr(b["params"][v[1]]["bt"]).replace("&mut ", "").replace("&", "").strip() == "lsp_types::Position")
                 n += 1
                 out.add(b["d"], "Position.%s of a client position is read only by get_insertion_index" % fld["name"], ok,
                         c.loc(fld["sp"]),
@@ -568,7 +568,11 @@ def rule_doc_in_range(prog):
     from . import roles
     comments = roles.comment_parsers(prog)
     for b in c.bodies:
-        if not c.file_of(b["sp"]).endswith("parser.rs") or "parser::Parser>::parse" not in b["d"]:
+        f_ = c.file_of(b["sp"])
+        if not (f_.endswith("src/parser.rs") or "/parser/" in f_) or "/tests" in f_:
+            continue
+        # the node parsers: Parser::parse impls (with their nested functions) and functions of the parser that yield a node of the tree
+        if "parser::Parser>::parse" not in b["d"] and not ("sig_out" in b and "ast::" in c.tstr(b["sig_out"])):
             continue
         for call, parents in hir.walk(b["body"]):
             if call.get("k") != "Call" or not (hir.callee(call) or "").endswith("nom::multi::many0"):
